@@ -47,6 +47,9 @@ func parseKey(b []byte) *keys.PublicKey {
 
 // malformedKey returns bytes that keys.NewPublicKeyFromBytes rejects.
 func malformedKey(r *prng.R, good []byte) []byte {
+	if len(good) != 33 { // already damaged: start from some well-formed shape
+		good = append([]byte{2}, r.Bytes(32)...)
+	}
 	for {
 		var b []byte
 		switch r.Intn(7) {
@@ -296,6 +299,15 @@ func famMultisig(c *ctx) {
 			sg[i] = c.pool.priv[owner[r.Intn(n)]].SignHash([32]byte(msg))
 			c.o.Count("multisig:mut:other-listed-key")
 		}
+	}
+	if r.Chance(1, 6) && m >= 3 {
+		// exactly one bad signature somewhere inside an otherwise complete in-order assignment: the
+		// two ends meet with every remaining check succeeding but one signature left over
+		for i := range sg {
+			sg[i] = c.pool.priv[owner[pos[i]]].SignHash([32]byte(msg))
+		}
+		sg[r.Range(1, m-2)] = r.Bytes(64)
+		c.o.Count("multisig:one-bad-inside")
 	}
 	if r.Chance(1, 8) {
 		for t := r.Range(1, 2); t > 0; t-- {
